@@ -1,8 +1,10 @@
 package support
 
+import "sync/atomic"
+
 type Supporter struct {
-	progress int  // The progress of the analysis
-	stop     bool // If the analysis is stoped
+	progress int64 // The progress of the analysis (updated atomically by the worker goroutines)
+	stop     bool  // If the analysis is stoped
 }
 
 // Returns the progress of the analysis
@@ -15,12 +17,12 @@ func NewSupporter() *Supporter {
 
 // Returns the progress of the analysis
 func (sup *Supporter) Progress() int {
-	return sup.progress
+	return int(atomic.LoadInt64(&sup.progress))
 }
 
 // Increments the progress of the analysis
 func (sup *Supporter) IncrementProgress() {
-	sup.progress++
+	atomic.AddInt64(&sup.progress, 1)
 }
 
 // Tells the supported to stop the analysis
